@@ -2,6 +2,7 @@ package rules
 
 import (
 	"go/token"
+	"go/types"
 	"strings"
 
 	"golang.org/x/tools/go/ssa"
@@ -57,7 +58,26 @@ func c15Gate(e *Env, s *Sched) {
 		r.Unknown("loop: reaching condition of the launch", e.InstrPos(s.Launch), "reaching condition could not be computed (too many disjuncts or unreachable)")
 		return
 	}
-	isMax := func(v ssa.Value) bool { return e.IsFieldRead(v, nil, e.schedFields().MaxActive) }
+	isMax := func(v ssa.Value) bool {
+		// the limit, possibly converted (`int(l)` for a limit kept in a small named type)
+		for d := 0; d < 3; d++ {
+			if cv, isCv := ir.Resolve(v).(*ssa.Convert); isCv {
+				v = cv.X
+				continue
+			}
+			break
+		}
+		if e.IsFieldRead(v, nil, e.schedFields().MaxActive) {
+			return true
+		}
+		// the receiver of a method on the limit's own type, bound to the scheduler's field
+		if pr, isP := ir.Resolve(v).(*ssa.Parameter); isP {
+			if b := ir.Bound(pr); b != nil {
+				return e.IsFieldRead(b, nil, e.schedFields().MaxActive)
+			}
+		}
+		return false
+	}
 	// the counter, by role: the int-valued repository function whose result the limit is compared with
 	isCount := func(v ssa.Value) bool {
 		c, ok := ir.Resolve(v).(*ssa.Call)
@@ -70,6 +90,16 @@ func c15Gate(e *Env, s *Sched) {
 		}
 		s.Counter = f
 		return true
+	}
+	isCount0 := isCount
+	isCount = func(v ssa.Value) bool {
+		// the count handed to a predicate of the limit (`limit.reachedBy(g.countRunning())`)
+		if pr, isP := ir.Resolve(v).(*ssa.Parameter); isP {
+			if b := ir.Bound(pr); b != nil {
+				return isCount0(b)
+			}
+		}
+		return isCount0(v)
 	}
 	// slots left, by role: an int accumulator of a loop in a repository function that
 	// starts from the limit (C15.count-table checks that it goes down by one exactly per running node)
@@ -101,7 +131,7 @@ func c15Gate(e *Env, s *Sched) {
 			expanded = append(expanded, e.expandHelperCalls(ir.NormalizeAll(conj), 0)...)
 		}
 	}
-	for _, lits := range expanded {
+	judge := func(lits []ir.NLit) {
 		good := false
 		for _, l := range lits {
 			if l.Kind != "cmp" {
@@ -139,6 +169,11 @@ func c15Gate(e *Env, s *Sched) {
 			allOK = false
 		}
 	}
+	for _, lits := range expanded {
+		// predicates with several call sites or a single expression (`limit.reachedBy(n)`)
+		// are opened with their parameters bound to this call's arguments
+		e.ways(lits, judge)
+	}
 	r.Check(allOK, "loop: go→worker reachable only with maxActiveRuns<=0 or runningCount<maxActiveRuns", e.InstrPos(s.Launch),
 		"some way of reaching the launch neither has the limit disabled nor has established running count < maxActiveRuns (off-by-one, or the limit test can be bypassed)", facts...)
 }
@@ -152,6 +187,24 @@ func c15CountTable(e *Env, s *Sched) {
 	}
 	if fn == nil {
 		return
+	}
+	// the gate calls the higher-order helper itself (`running := countFunc(nodes, isRunning)`):
+	// judged with its parameters bound to the arguments of that call
+	if hasFuncParam(fn) {
+		var sites []ssa.CallInstruction
+		for _, f := range e.RepoFuncsSorted() {
+			sites = append(sites, ir.CallsIn(f, func(c *ssa.CallCommon) bool { return c.StaticCallee() == fn })...)
+		}
+		if len(sites) == 1 {
+			bind := map[ssa.Value]ssa.Value{}
+			for i, p := range fn.Params {
+				if i < len(sites[0].Common().Args) {
+					bind[p] = sites[0].Common().Args[i]
+				}
+			}
+			undo := ir.SetOverride(bind)
+			defer undo()
+		}
 	}
 	loops := ir.Loops(fn)
 	if len(loops) == 0 {
@@ -354,4 +407,13 @@ func forwardsTo(f *ssa.Function) (*ssa.Function, *ssa.Call) {
 		return nil, nil
 	}
 	return h, c
+}
+
+func hasFuncParam(f *ssa.Function) bool {
+	for _, p := range f.Params {
+		if _, ok := p.Type().Underlying().(*types.Signature); ok {
+			return true
+		}
+	}
+	return false
 }
